@@ -1328,6 +1328,141 @@ def inline_import_time_helpers(trees, unknown, report):
     return changed
 
 
+def lower_callable_objects(trees, report, unknown=None):
+    """A new class with only `__init__` (plain stores of its parameters into fields) and `__call__` (which only reads
+    the fields), whose every use in the package is a module-level `NAME = K(<constants / module names>)`, is a
+    function factory applied at import time; each NAME is the function `__call__` with the fields replaced by what
+    was stored in them:
+        class K: def __init__(self, *cs): self.cs = cs                _check = K(bool)
+                 def __call__(self, d, **kw): return isinstance(d, self.cs)
+        ==>     def _check(d, **kw): return isinstance(d, (bool,))
+    Side conditions: the arguments are constants, names or tuples of these (no call: nothing is evaluated later
+    than before that could differ), none of their names is a local of `__call__`, `self` is used in `__call__` only
+    to read fields, NAME is bound once."""
+    inv = load_inventory()
+    if inv is None:
+        return set()
+    changed = set()
+    for rel, tree in list(trees.items()):
+        if rel not in inv.get("globals", {}):
+            continue
+        known = set(inv.get("globals", {}).get(rel, ()))
+        for K in [s for s in tree.body if isinstance(s, ast.ClassDef) and s.name not in known]:
+            if K.bases or K.decorator_list or K.keywords:
+                continue
+            methods, ok = {}, True
+            for st in K.body:
+                if isinstance(st, ast.FunctionDef):
+                    if st.decorator_list or st.args.posonlyargs or not st.args.args:
+                        ok = False
+                    methods[st.name] = st
+                elif isinstance(st, ast.Expr) and isinstance(st.value, ast.Constant):
+                    continue
+                elif isinstance(st, ast.Pass) or (isinstance(st, ast.AnnAssign) and st.value is None):
+                    continue
+                elif isinstance(st, ast.Assign) and all(isinstance(t, ast.Name) and t.id == "__slots__" for t in st.targets):
+                    continue
+                else:
+                    ok = False
+            if not ok or set(methods) != {"__init__", "__call__"}:
+                continue
+            init, call = methods["__init__"], methods["__call__"]
+            if init.args.kwarg or init.args.kwonlyargs or init.args.defaults:
+                continue
+            sname = init.args.args[0].arg
+            iparams = [a.arg for a in init.args.args[1:]]
+            ivar = init.args.vararg.arg if init.args.vararg else None
+            inits = {}
+            for st in _strip_doc(init.body):
+                if isinstance(st, ast.Pass):
+                    continue
+                if isinstance(st, ast.AnnAssign) and st.value is not None:
+                    tgt, val = st.target, st.value
+                elif isinstance(st, ast.Assign) and len(st.targets) == 1:
+                    tgt, val = st.targets[0], st.value
+                else:
+                    ok = False
+                    break
+                if not (isinstance(tgt, ast.Attribute) and isinstance(tgt.value, ast.Name) and tgt.value.id == sname) or tgt.attr in inits or not _simple_arg(val):
+                    ok = False
+                    break
+                if any(isinstance(x, ast.Name) and x.id not in iparams and x.id != ivar for x in ast.walk(val)):
+                    ok = False
+                    break
+                inits[tgt.attr] = val
+            if not ok:
+                continue
+            cself = call.args.args[0].arg
+            reads = [n for n in _walk_own(call) if isinstance(n, ast.Attribute) and isinstance(n.value, ast.Name) and n.value.id == cself]
+            selfs = [n for n in _walk_own(call) if isinstance(n, ast.Name) and n.id == cself]
+            if len(reads) != len(selfs) or any(not isinstance(r.ctx, ast.Load) or r.attr not in inits for r in reads):
+                continue
+            if any(isinstance(n, (ast.FunctionDef, ast.Lambda, ast.ClassDef, ast.Global, ast.Nonlocal)) for n in _walk_own(call) if n is not call):
+                continue
+            # every reference to K in the package
+            uses = []
+            good = True
+            for r2, t2 in trees.items():
+                for n in ast.walk(t2):
+                    if isinstance(n, ast.Name) and n.id == K.name:
+                        uses.append((r2, n))
+                    elif isinstance(n, ast.ImportFrom) and any(a.name == K.name for a in n.names):
+                        good = False
+                    elif isinstance(n, ast.Attribute) and n.attr == K.name:
+                        good = False
+            sites = []
+            for st in tree.body:
+                if isinstance(st, ast.Assign) and len(st.targets) == 1 and isinstance(st.targets[0], ast.Name) and isinstance(st.value, ast.Call) and isinstance(st.value.func, ast.Name) and st.value.func.id == K.name:
+                    sites.append(st)
+            if not good or not sites or len(uses) != len(sites) or any(r2 != rel for r2, _ in uses):
+                continue
+            call_locals = local_names(call) | {a.arg for a in call.args.args + call.args.kwonlyargs} | ({call.args.vararg.arg} if call.args.vararg else set()) | ({call.args.kwarg.arg} if call.args.kwarg else set())
+            plans = []
+            for st in sites:
+                c = st.value
+                nm = st.targets[0].id
+                stores = sum(1 for n in ast.walk(tree) if isinstance(n, ast.Name) and n.id == nm and isinstance(n.ctx, (ast.Store, ast.Del)))
+                defs = sum(1 for n in ast.walk(tree) if isinstance(n, (ast.FunctionDef, ast.ClassDef)) and n.name == nm)
+                if stores != 1 or defs or c.keywords or any(isinstance(a, ast.Starred) or not _simple_arg(a) or isinstance(a, ast.IfExp) for a in c.args):
+                    good = False
+                    break
+                if any(isinstance(x, ast.Name) and x.id in call_locals for a in c.args for x in ast.walk(a)):
+                    good = False
+                    break
+                if len(c.args) < len(iparams) or (len(c.args) > len(iparams) and ivar is None):
+                    good = False
+                    break
+                binding = {p: a for p, a in zip(iparams, c.args)}
+                if ivar is not None:
+                    binding[ivar] = ast.Tuple(elts=list(c.args[len(iparams):]), ctx=ast.Load())
+                plans.append((st, nm, binding))
+            if not good:
+                continue
+            for st, nm, binding in plans:
+                fields = {f: _SubstLoads(binding).visit(copy.deepcopy(v)) for f, v in inits.items()}
+
+                class F(ast.NodeTransformer):
+                    def visit_Attribute(self, n):
+                        if isinstance(n.value, ast.Name) and n.value.id == cself:
+                            return ast.copy_location(copy.deepcopy(fields[n.attr]), n)
+                        self.generic_visit(n)
+                        return n
+
+                fn = copy.deepcopy(call)
+                fn.name = nm
+                fn.args.args = fn.args.args[1:]
+                fn.body = [F().visit(x) for x in _strip_doc(fn.body)] or [ast.Pass()]
+                ast.copy_location(fn, st)
+                ast.fix_missing_locations(fn)
+                tree.body[tree.body.index(st)] = fn
+                if isinstance(unknown, set) and nm not in known:
+                    unknown.add((rel, nm))
+                report.append(("callable-object", f"{rel}:{nm}"))
+            tree.body = [s2 for s2 in tree.body if s2 is not K]
+            changed.add(rel)
+    return changed
+
+
 def undo(trees, unknown, report):
     """all three steps; returns the relpaths whose tree changed"""
     from .canon import canonicalise
@@ -1341,6 +1476,10 @@ def undo(trees, unknown, report):
     for rel in e:
         canonicalise(trees[rel])
     changed |= e
+    e2 = lower_callable_objects(trees, report, unknown if isinstance(unknown, set) else None)
+    for rel in e2:
+        canonicalise(trees[rel])
+    changed |= e2
     if unknown:
         b = flatten_tuple_params(trees, unknown, report)
         for rel in b:
